@@ -126,7 +126,7 @@ func nodeClass(cx *explore.Ctx, q run.Query) string {
 
 func C02(tier string) int {
 	c := report.NewCollector("C02")
-	groups := explore.Groups(explore.CaseOpts{Tier: tier, Prefixes: true, Edits: tier == "thorough", Seqs: tier == "thorough"})
+	groups := explore.Groups(explore.CaseOpts{Tier: tier, Prefixes: true, Edits: tier == "thorough", Seqs: tier == "thorough", JSON: true})
 	groups = append(groups, func() []explore.Case { return jsonCases(tier) })
 	explore.SweepGroups(groups, c, explore.Deadline(tier), explore.Opts{
 		Kinds:    allKinds,
@@ -425,7 +425,8 @@ func c20Safety(cx *explore.Ctx, q run.Query, r run.Result) {
 		add("signature:active-out-of-range", fmt.Sprintf("signature %q active=%d of %d", sig.Name, sig.ActiveParameter, len(sig.Parameters)))
 	}
 	// the call text must enclose the cursor: some occurrence of name( before the cursor
-	if !strings.Contains(string(cx.Src[:min(len(cx.Src), q.Pos.Byte+len(name)+1)]), name) {
+	// (the parser accepts blanks around the :: of a namespaced name: compared with blanks removed)
+	if !strings.Contains(strings.NewReplacer(" ", "", "\t", "").Replace(string(cx.Src[:min(len(cx.Src), q.Pos.Byte+len(name)+1)])), name) {
 		add("signature:no-call-at-cursor", fmt.Sprintf("signature %q but no call text before cursor", sig.Name))
 	}
 	cx.L.Count("nontrivial", 1)
